@@ -34,9 +34,56 @@ use vf_kit::refsql::{self, Expr, GenConfig, JoinKind, Query, RefError, RefErrorC
 
 pub struct C01;
 
+thread_local! {
+    /// result of the last engine run on this thread, keyed by a hash of (tables, sql): `known_signature`
+    /// (outcome-keyed signatures) and `run` see the same case back to back
+    static LAST_RUN: std::cell::RefCell<Option<(u64, vf_df::RunOutput)>> = const { std::cell::RefCell::new(None) };
+}
+
+pub fn engine_run(case: &SqlCase, sql: &str) -> vf_df::RunOutput {
+    let mut key_src = serde_json::to_vec(&case.tables).unwrap_or_default();
+    key_src.extend_from_slice(sql.as_bytes());
+    let key = fnv1a(&key_src);
+    if let Some(hit) = LAST_RUN.with(|c| c.borrow().as_ref().filter(|(k, _)| *k == key).map(|(_, o)| o.clone())) {
+        return hit;
+    }
+    let out = run_sql(&case.tables, sql, &Variant::default(), false);
+    LAST_RUN.with(|c| *c.borrow_mut() = Some((key, out.clone())));
+    out
+}
+
+fn nullability_mismatch(out: &vf_df::RunOutput) -> bool {
+    matches!(&out.outcome, DfOutcome::Error(e) if e.class == ErrClass::Internal && e.message.contains("Physical input schema should be the same") && e.message.contains("field nullability"))
+}
+
+pub fn has_bool_test(q: &Query) -> bool {
+    let mut found = false;
+    refsql::visit_exprs(q, &mut |e| {
+        if matches!(e, Expr::BoolTest { .. }) {
+            found = true
+        }
+    });
+    found
+}
+
+pub fn has_intersect_except_all(q: &Query) -> bool {
+    fn set(e: &SetExpr, found: &mut bool) {
+        if let SetExpr::SetOp { op, all, left, right } = e {
+            if *all && *op != SetOp::Union {
+                *found = true;
+            }
+            set(left, found);
+            set(right, found);
+        }
+    }
+    let mut found = false;
+    refsql::visit_queries(q, &mut |qq| set(&qq.body, &mut found));
+    found
+}
+
 pub fn gen_config(tier: Tier) -> GenConfig {
     let mut cfg = GenConfig::standard(3, tier.pick(12, 40), tier.pick(2, 3));
-    cfg.tape_len = tier.pick(400, 600);
+    cfg.tape_len = tier.pick(500, 800);
     cfg
 }
 
@@ -119,6 +166,88 @@ pub fn in_subquery_outside_conjunct(q: &Query) -> bool {
     let mut bad = false;
     refsql::visit_queries(q, &mut |qq| set(&qq.body, &mut bad));
     bad
+}
+
+/// A searched CASE has a THEN expression (not a literal) that also occurs inside its WHEN predicate
+/// (known finding `case-then-occurs-in-when`: logical and physical nullability analyses disagree → Internal error).
+pub fn case_then_in_when(q: &Query) -> bool {
+    let mut found = false;
+    refsql::visit_exprs(q, &mut |e| {
+        if let Expr::Case { operand: None, whens, .. } = e {
+            for (w, t) in whens {
+                if matches!(t, Expr::Lit(_) | Expr::Null(_)) {
+                    continue;
+                }
+                refsql::eval::walk_expr_shallow(w, &mut |x| {
+                    if x == t {
+                        found = true
+                    }
+                });
+            }
+        }
+    });
+    found
+}
+
+/// visits every negated IN-subquery (`e NOT IN (q)` or `NOT (e IN (q))`) as (e, q)
+fn for_each_not_in<'a>(q: &'a Query, f: &mut dyn FnMut(&'a Expr, &'a Query)) {
+    refsql::visit_exprs(q, &mut |x| match x {
+        Expr::InSubquery { e, q, negated: true } => f(e, q),
+        Expr::Not(inner) => {
+            if let Expr::InSubquery { e, q, negated: false } = &**inner {
+                f(e, q)
+            }
+        }
+        _ => {}
+    });
+}
+
+/// a negated IN-subquery whose left side mentions no column (known finding `not-in-subquery-constant-lhs`)
+pub fn not_in_constant_lhs(q: &Query) -> bool {
+    let mut found = false;
+    for_each_not_in(q, &mut |e, _| {
+        let mut has_col = false;
+        refsql::eval::walk_expr_shallow(e, &mut |y| {
+            if matches!(y, Expr::Col { .. } | Expr::Scalar(_)) {
+                has_col = true
+            }
+        });
+        if !has_col {
+            found = true;
+        }
+    });
+    found
+}
+
+/// a negated IN-subquery whose subquery is correlated (known finding `not-in-subquery-correlated`)
+pub fn not_in_correlated(q: &Query) -> bool {
+    let mut found = false;
+    for_each_not_in(q, &mut |_, sq| {
+        if refsql::has_outer_refs(sq) {
+            found = true;
+        }
+    });
+    found
+}
+
+/// a UNION with a UNION operand (the optimizer flattens those into one n-ary Union)
+pub fn has_nested_union(q: &Query) -> bool {
+    fn set(e: &SetExpr, found: &mut bool) {
+        if let SetExpr::SetOp { op, left, right, .. } = e {
+            if *op == SetOp::Union {
+                for side in [left, right] {
+                    if matches!(**side, SetExpr::SetOp { op: SetOp::Union, .. }) {
+                        *found = true;
+                    }
+                }
+            }
+            set(left, found);
+            set(right, found);
+        }
+    }
+    let mut found = false;
+    refsql::visit_queries(q, &mut |qq| set(&qq.body, &mut found));
+    found
 }
 
 fn is_simple_projection(q: &Query) -> bool {
@@ -278,13 +407,40 @@ impl Property for C01 {
         ]
     }
     fn known_signature(&self, case: &SqlCase) -> Option<String> {
-        if unaliased_quantified(&case.query) {
-            Some("unaliased-select-list-quantified".into())
-        } else if in_subquery_outside_conjunct(&case.query) {
-            Some("in-subquery-outside-conjunct".into())
-        } else {
-            None
+        let q = &case.query;
+        // shape-keyed signatures (excluded by construction)
+        if unaliased_quantified(q) {
+            return Some("unaliased-select-list-quantified".into());
         }
+        if in_subquery_outside_conjunct(q) {
+            return Some("in-subquery-outside-conjunct".into());
+        }
+        if not_in_constant_lhs(q) {
+            return Some("not-in-subquery-constant-lhs".into());
+        }
+        if not_in_correlated(q) {
+            return Some("not-in-subquery-correlated".into());
+        }
+        if has_intersect_except_all(q) {
+            return Some("intersect-except-all".into());
+        }
+        // outcome-keyed signatures: construct present AND the engine answers with exactly that internal error
+        let (bt, cw, nu) = (has_bool_test(q), case_then_in_when(q), has_nested_union(q));
+        if bt || cw || nu {
+            let out = engine_run(case, &refsql::to_sql(q));
+            if nullability_mismatch(&out) {
+                if bt {
+                    return Some("nullability-mismatch:bool-test".into());
+                }
+                if cw {
+                    return Some("nullability-mismatch:case-then-in-when".into());
+                }
+            }
+            if nu && matches!(&out.outcome, DfOutcome::Error(e) if e.class == ErrClass::Internal && e.message.contains("Physical input schema should be the same") && e.message.contains("field name at index")) {
+                return Some("nested-union-empty-first-branch".into());
+            }
+        }
+        None
     }
     fn run(&self, case: &SqlCase) -> CaseResult {
         let sql = refsql::to_sql(&case.query);
@@ -296,7 +452,7 @@ impl Property for C01 {
                 panic!("refsql cannot evaluate a generated query ({e}): {sql}");
             }
         }
-        let out = run_sql(&case.tables, &sql, &Variant::default(), false);
+        let out = engine_run(case, &sql);
         let (relational, anti) = shape(&case.query);
         let tables_nonempty = case.tables.iter().all(|t| !t.rows.is_empty());
         let may_fail = refsql::may_fail_static(&case.query);
